@@ -240,6 +240,14 @@ class AsyncPausableMotor(Motor):
         self.H.led([self.name, "pause", None])
         self.H.arrive("hook")
         await asyncio.sleep(0)
+        if self.spec.get("pausable") == "async-slow":
+            # hold the pause sequence (real time, bounded) until the thread that issued the blocking call has seen it
+            # return -- which must NOT happen before the engine is 'paused'; on a correct engine this just times out
+            import time
+
+            t0 = time.time()
+            while not self.H.call_returned.is_set() and time.time() - t0 < 0.15:
+                time.sleep(0.002)
 
     def resume(self):
         self.H.led([self.name, "resume", None])
@@ -309,12 +317,13 @@ class Harness:
         self.schema_errors = []
         self.plan_finished = False
         self._closing_by_engine = False
+        self.call_returned = threading.Event()
         self.cb_fault_counts = {}
         self.cb_faults_fired = []
         self.script = {int(k): v for k, v in sc.get("script", {}).items()}
         self.max_arrivals = sc.get("max_arrivals", 400)
         for name, spec in sc.get("devices", {}).items():
-            motor_cls = AsyncPausableMotor if spec.get("pausable") == "async" else (PausableMotor if spec.get("pausable") else Motor)
+            motor_cls = AsyncPausableMotor if spec.get("pausable") in ("async", "async-slow") else (PausableMotor if spec.get("pausable") else Motor)
             cls = {"motor": motor_cls, "det": Det, "sig": Sig, "anon": AnonStageable}[spec["kind"]]
             self.devs[name] = cls(self, name, spec)
 
@@ -693,6 +702,7 @@ def run_scenario(sc, timeout=20.0):
                         box["text"] = str(e)
                         box["cause"] = exc_name(e.__cause__) if e.__cause__ is not None else ""
 
+                H.call_returned.clear()
                 th = threading.Thread(target=target, daemon=True)
                 th.start()
                 th.join(timeout)
@@ -700,6 +710,7 @@ def run_scenario(sc, timeout=20.0):
                     box["r"] = "hang"
                     H.notes.append("hang in " + label)
                 H.returns.append([label, box["r"], str(RE.state), bool(RE._interrupted), bool(RE._deferred_pause_requested), len(RE._run_bundlers)])
+                H.call_returned.set()
                 H.return_texts.append(box.get("text", ""))
                 H.return_causes.append(box.get("cause", ""))
                 H.return_values.append(box.get("v"))
